@@ -11,6 +11,8 @@ package main
 
 import (
 	"bytes"
+	"crypto/sha256"
+	"encoding/hex"
 	"fmt"
 	"go/ast"
 	"go/parser"
@@ -551,6 +553,7 @@ func main() {
 	skel.WriteString("-- GENERATED by /verif/extract/goextract from /repo's working tree. Do not edit.\nimport SciVerif.Tie.Atom\nnamespace SciVerif.Generated\nopen SciVerif.Tie\n\n")
 	consts.WriteString("-- GENERATED by /verif/extract/goextract from /repo's working tree. Do not edit.\nnamespace SciVerif.Generated.Consts\n\n")
 	allFuncs := []string{}
+	hashes := [][2]string{}
 	for _, p := range pkgs {
 		files, _ := filepath.Glob(filepath.Join(repo, p.dir, "*.go"))
 		sort.Strings(files)
@@ -597,6 +600,11 @@ func main() {
 						}
 						fmt.Fprintf(&acc, "  %s⟨%s, %s, %s, %v, %s⟩\n", sep, leanStr(p.name+"."+key), leanStr(ac.field), leanStr(ac.recv), ac.write, leanStrList(ac.locks))
 					}
+					hs := sha256.New()
+					for _, a := range w.out {
+						fmt.Fprintf(hs, "%s\x1f%s\x1f%s\x1f%s\x1e", a.kind, a.name, a.recv, strings.Join(a.args, "\x1d"))
+					}
+					hashes = append(hashes, [2]string{p.name + "." + id, hex.EncodeToString(hs.Sum(nil))[:16]})
 					fmt.Fprintf(&skel, "def %s : List Atom := [\n", id)
 					for i, a := range w.out {
 						sep := ","
@@ -671,6 +679,20 @@ func main() {
 		panic(err)
 	}
 	acc.WriteString("]\n\nend SciVerif.Generated.Access\n")
+	var hb bytes.Buffer
+	hb.WriteString("-- GENERATED by /verif/extract/goextract from /repo's working tree. Do not edit.\n-- first 16 hex digits of SHA-256 over each function's skeleton atoms\nnamespace SciVerif.Generated\n\ndef hashes : List (String × String) := [\n")
+	for i, h := range hashes {
+		sep := ","
+		if i == len(hashes)-1 {
+			sep = ""
+		}
+		fmt.Fprintf(&hb, "  (%s, %s)%s\n", leanStr(h[0]), leanStr(h[1]), sep)
+	}
+	hb.WriteString("]\n\nend SciVerif.Generated\n")
+	if err := os.WriteFile(filepath.Join(outdir, "Hashes.lean"), hb.Bytes(), 0644); err != nil {
+		fmt.Fprintln(os.Stderr, err)
+		os.Exit(1)
+	}
 	if err := os.WriteFile(filepath.Join(outdir, "Access.lean"), acc.Bytes(), 0644); err != nil {
 		panic(err)
 	}
